@@ -123,6 +123,34 @@ def sweep_specs(rng):
                               ctxs=[rng.choice(sorted(set(c12_gen.CONTEXTS)))] if rng.random() < 0.5 else []) for l in pat]
                 fns.append(leaf(kind=kind, form='assign'))
                 out.append({'fns': fns, 'x': 2, 'recursive': rec})
+    # exception translation: a link catches the failure of the chain below it and raises a different exception - at every
+    # position of the chain, in every mode, over converted / separately wrapped / to_graph / unconverted links below
+    below_links = ['direct', 'wrapped', 'wrapped-nonrec', 'tograph', 'dnc', 'map', 'method', 'partial']
+    tk = c12_gen.TRANSLATE_KINDS
+    n = 0
+    for mode in sorted(set(c12_gen.TRANSLATE_MODES)):
+        for below in below_links:
+            for depth, pos in ((2, 0), (3, 0), (3, 1), (4, 1), (4, 2)):
+                for rec in ((True, False) if below in ('direct', 'wrapped') else (True,)):
+                    n += 1
+                    fns = []
+                    for i in range(depth - 1):
+                        link = below if i == pos else rng.choice(['direct', 'direct', 'wrapped', 'method', 'lambda'])
+                        fn = caller(link, form=rng.choice(['assign', 'return', 'augassign', 'expr', 'callarg']),
+                                    ctxs=[rng.choice(sorted(set(c12_gen.CONTEXTS)))] if rng.random() < 0.4 else [])
+                        if i == pos:
+                            catch = 'Exception' if n % 3 else rng.choice(['KeyError', 'ValueError', 'Exception', '(KeyError, ValueError, U)'])
+                            fn['translate'] = {'mode': mode, 'kind': tk[(n * 7) % len(tk)], 'catch': catch}
+                        fns.append(fn)
+                    fns.append(leaf(kind=rng.choice(['raise-KeyError', 'raise-ValueError', 'raise-U', 'KeyError', 'ZeroDivisionError', 'raise-U2']),
+                                    form='assign'))
+                    out.append({'fns': fns, 'x': 2, 'recursive': rec})
+    # two translating links, one above the other
+    for mode_a, mode_b in (('plain', 'plain'), ('from-none', 'plain'), ('plain', 'finally'), ('from-other', 'from-none')):
+        fa = caller('direct', form='assign'); fa['translate'] = {'mode': mode_a, 'kind': 'raise-RuntimeError', 'catch': 'Exception'}
+        fb = caller('wrapped', form='assign'); fb['translate'] = {'mode': mode_b, 'kind': 'raise-KeyError', 'catch': 'Exception'}
+        out.append({'fns': [fa, fb, leaf(kind='raise-ValueError')], 'x': 2})
+        out.append({'fns': [caller('direct', form='return'), fa, fb, leaf(kind='ZeroDivisionError', form='assign')], 'x': 2, 'recursive': True})
     # file names of the user modules: every name once as a single-file program, and as the helper module holding the
     # unconverted tail of a chain (non-recursive entry; do_not_convert callee; builtin calling back)
     for fname in c12_gen.FILE_NAMES:
